@@ -101,13 +101,18 @@ func hunksEqual(x, y []ref.Hunk) string {
 var c02Panel = []string{``, `null`, `1`, `"v1"`, `[]`, `["v1"]`, `["v1","v2"]`, `["c1","v1","c2"]`, `["c1","v1","v2","c2"]`, `{}`, `{"k":"v1"}`, `{"k":["v1"]}`,
 	`{"k":["c1","v1","c2"]}`, `[{"id":"v1","k":"v1"}]`, `[["v1"]]`, `{"k":{"k":"v1"}}`, `["v1","v1"]`, `["v2"]`}
 
-// patchOutcome applies d to a fresh parse of each panel document.
-func patchOutcome(d jd.Diff, panel []string) []string {
+// patchOutcome applies a FRESH diff value (mk is called once per document) to a
+// fresh parse of each panel document. One diff value must never be applied
+// twice here: Patch puts a hunk's added containers into the document as they
+// are, and a later hunk of the same diff that edits inside such a container
+// edits the diff's own value with it (jd shares storage between documents and
+// diffs by design), so a second application would see another diff.
+func patchOutcome(mk func() jd.Diff, panel []string) []string {
 	out := make([]string, len(panel))
 	for i, x := range panel {
 		var res string
 		pan := mon.Safe(func() {
-			P, err := ReadJ(x).Patch(d)
+			P, err := ReadJ(x).Patch(mk())
 			switch {
 			case err != nil:
 				res = "error"
@@ -185,10 +190,14 @@ func c02RoundTrip(c *mon.Ctx, mkDiff func() jd.Diff, panel []string, renderOpts 
 	if tc != t {
 		c.Feature("colour_codes_present")
 	}
+	reread := func() jd.Diff {
+		dx, _ := jd.ReadDiffString(t)
+		return dx
+	}
 	for _, x := range panel {
 		var P jd.JsonNode
 		var perr error
-		if pan := mon.Safe(func() { P, perr = ReadJ(x).Patch(d2) }); pan == "" && perr == nil && P != nil {
+		if pan := mon.Safe(func() { P, perr = ReadJ(x).Patch(reread()) }); pan == "" && perr == nil && P != nil {
 			if m := sharedContainer(P); m != "" {
 				extra["document"] = x
 				c.Violation("a freshly parsed document patched with a freshly read diff holds one container at two places ("+m+")", extra)
@@ -196,7 +205,7 @@ func c02RoundTrip(c *mon.Ctx, mkDiff func() jd.Diff, panel []string, renderOpts 
 			}
 		}
 	}
-	o1, o2 := patchOutcome(mkDiff(), panel), patchOutcome(d2, panel)
+	o1, o2 := patchOutcome(mkDiff, panel), patchOutcome(reread, panel)
 	for i := range panel {
 		c.Feature("effect_comparisons")
 		if strings.HasPrefix(o1[i], "ok") {
